@@ -196,6 +196,20 @@ where
         .map(|v: Vec<I::Token>| Val::toks(v)))
 }
 
+/// `(Skip n)`: a custom parser that calls `InputRef::skip` n times.
+pub fn v_skip<'a, I, E>(n: usize) -> P<'a, I, E>
+where
+    I: HInput<'a> + ValueInput<'a>,
+    E: HErr<'a, I>,
+{
+    bx(custom(move |inp: &mut InputRef<'a, '_, I, Ex<E>>| {
+        for _ in 0..n {
+            inp.skip();
+        }
+        Ok(Val::Unit)
+    }))
+}
+
 pub fn v_any<'a, I, E>() -> P<'a, I, E>
 where
     I: HInput<'a> + ValueInput<'a>,
@@ -520,6 +534,7 @@ impl<'a, I: HInput<'a>, E: HErr<'a, I>> Builder<'a, I, E> {
             }
             G::Boxed(a) => bx(self.g(a)?.boxed()),
             G::NestedIn(a) => I::nested_in(self.g(a)?)?,
+            G::Skip(n) => I::skip(*n)?,
             G::ExtWrap(a) => bx(chumsky::extension::v1::Ext(ExtW(self.g(a)?))),
             G::Pratt(form, atom, ops) => {
                 let atom = self.g(atom)?;
@@ -633,6 +648,9 @@ impl<'a, I: HInput<'a>, E: HErr<'a, I>> Builder<'a, I, E> {
             IT::ISep(a, sep, lo, hi, lead, trail) => {
                 bxu(self.sep(self.g(a)?, self.g(sep)?, *lo, *hi, *lead, *trail))
             }
+            IT::IRepCfg(a, lo, hi, ck) if *ck >= 4 => bxu(
+                self.rep(self.g(a)?, *lo, *hi).try_configure(rep_try_cfg::<I, E>(*ck, *lo)),
+            ),
             IT::IRepCfg(a, lo, hi, ck) => bxu(
                 self.rep(self.g(a)?, *lo, *hi)
                     .configure({ let ck = *ck; move |cfg, ctx: &Val| rep_cfg(cfg, ck, val_count(ctx)) }),
@@ -711,6 +729,11 @@ impl<'a, I: HInput<'a>, E: HErr<'a, I>> Builder<'a, I, E> {
             IT::ISep(a, sep, lo, hi, lead, trail) if !mapped => {
                 self.iter2(self.sep(self.g(a)?, self.g(sep)?, *lo, *hi, *lead, *trail), &ads, fin)
             }
+            IT::IRepCfg(a, lo, hi, ck) if !mapped && *ck >= 4 => self.iter2(
+                self.rep(self.g(a)?, *lo, *hi).try_configure(rep_try_cfg::<I, E>(*ck, *lo)),
+                &ads,
+                fin,
+            ),
             IT::IRepCfg(a, lo, hi, ck) if !mapped => self.iter2(
                 self.rep(self.g(a)?, *lo, *hi)
                     .configure({ let ck = *ck; move |cfg, ctx: &Val| rep_cfg(cfg, ck, val_count(ctx)) }),
@@ -725,6 +748,11 @@ impl<'a, I: HInput<'a>, E: HErr<'a, I>> Builder<'a, I, E> {
             IT::ISep(a, sep, lo, hi, lead, trail) => {
                 self.both2(self.sep(self.g_unit(a)?, self.g(sep)?, *lo, *hi, *lead, *trail), &ads, fin)
             }
+            IT::IRepCfg(a, lo, hi, ck) if *ck >= 4 => self.both2(
+                self.rep(self.g_unit(a)?, *lo, *hi).try_configure(rep_try_cfg::<I, E>(*ck, *lo)),
+                &ads,
+                fin,
+            ),
             IT::IRepCfg(a, lo, hi, ck) => self.both2(
                 self.rep(self.g_unit(a)?, *lo, *hi)
                     .configure({ let ck = *ck; move |cfg, ctx: &Val| rep_cfg(cfg, ck, val_count(ctx)) }),
@@ -904,6 +932,26 @@ fn items_val<T: Item, C: IntoIterator<Item = T>>(items: C) -> Val {
     Val::List(items.into_iter().map(T::into_val).collect())
 }
 
+
+/// The fallible configuring closure of `IRepCfg` with `ck >= 4` (`try_configure`): 4..7 are the shapes 0..3 returned as
+/// `Ok`; 8 returns `Err(custom lo)` when the context holds no token and `Ok(exactly(n))` otherwise.
+fn rep_try_cfg<'a, I: HInput<'a>, E: HErr<'a, I>>(
+    ck: usize,
+    lo: usize,
+) -> impl Fn(chumsky::combinator::RepeatedCfg, &Val, I::Span) -> Result<chumsky::combinator::RepeatedCfg, E> + Clone {
+    move |cfg, ctx: &Val, span: I::Span| {
+        let n = val_count(ctx);
+        if ck == 8 {
+            if n == 0 {
+                Err(E::custom(lo, span))
+            } else {
+                Ok(cfg.exactly(n))
+            }
+        } else {
+            Ok(rep_cfg(cfg, ck - 4, n))
+        }
+    }
+}
 
 /// The configuring closure of `IRepCfg`: which bounds it sets from the context-derived count `n`.
 fn rep_cfg(cfg: chumsky::combinator::RepeatedCfg, ck: usize, n: usize) -> chumsky::combinator::RepeatedCfg {
